@@ -511,8 +511,21 @@ impl<'a> ExpressionEvaluator<'a> {
                 )),
             },
             UnaryOperator::Minus => match operand {
-                DataType::BigInt(i) => Ok(DataType::BigInt((-i.0).into())),
-                DataType::Int(i) => Ok(DataType::Int((-i.0).into())),
+                // The smallest value has no negation in its type: report it instead of overflowing.
+                DataType::BigInt(i) => i
+                    .0
+                    .checked_neg()
+                    .map(|v| DataType::BigInt(v.into()))
+                    .ok_or(EvaluationError::TypeError(
+                        TypeSystemError::UnexpectedDataType(DataTypeKind::BigInt),
+                    )),
+                DataType::Int(i) => i
+                    .0
+                    .checked_neg()
+                    .map(|v| DataType::Int(v.into()))
+                    .ok_or(EvaluationError::TypeError(
+                        TypeSystemError::UnexpectedDataType(DataTypeKind::Int),
+                    )),
                 DataType::Double(f) => Ok(DataType::Double((-f.0).into())),
                 DataType::Float(f) => Ok(DataType::Float((-f.0).into())),
                 _ => Err(EvaluationError::TypeError(
